@@ -34,9 +34,11 @@ PROPERTIES["C27"] = dict(
     scope=("Kernel-level, two composed layers: (Kani) the numeric classifier every redirect target passes through "
            "(ipv4_is_non_global / ipv6_is_non_global / ip_is_non_global with the std::net predicates as compiled), complete over all "
            "addresses; (Engine Z) the host-text layer host_is_non_global / normalize_host / looks_like_obfuscated_ip -- localhost names, "
-           "IPv4 literals, obfuscated numeric and hex forms -- and build_redirected_request's header stripping."),
+           "IPv4 literals, obfuscated numeric and hex forms --, build_redirected_request's header stripping, and the hop loop of "
+           "RedirectResolver::http_resolve/redirect_target (at most ten redirects, none when disabled, re-issue only to checked targets) "
+           "over a scripted symbolic transport."),
     outside=["URL parsing of the Location header (url::Url::join, http::Uri parsing)",
-             "the redirect loop / 10-hop limit and the allow_redirects switch (RedirectResolver::http_resolve)",
+             "redirect_location / resolve_redirect_target (Location header extraction and url::Url::join are stubs in the hop-loop query)",
              "textual IPv6 literals (std's parser is modelled only as 'may parse'); IPv4-compatible and NAT64 IPv6 forms",
              "DNS names that resolve to internal addresses (tracked upstream, not in the property)"],
     assumptions=["Kani's MIR->goto translation, CBMC 6.11 and CaDiCaL are sound",
@@ -271,15 +273,20 @@ PROPERTIES["C29"] = dict(
 PROPERTIES["C10"] = dict(
     title="Untrusted input never crashes, hangs or exhausts memory",
     level="model_checking",
+    engine="kani",
+    technique="bounded model checking of the compiled parsers (Kani/CBMC/CaDiCaL) + symbolic execution of the BMFF header parsers' SOURCE "
+              "(syn AST -> bit-vector SMT, z3) with panic/overflow obligations",
+    smt=dict(module="props_c10", K=6, N=24, timeout_ms=600000),
     level_text=("Bounded model checking of named header/chunk parsers over EVERY byte string up to the stated length (and every declared "
                 "size up to u64::MAX where the format has one): CBMC discharges Kani's built-in checks on the compiled code -- no "
                 "panic, no arithmetic overflow (dev profile), no out-of-bounds access, no unreachable!, and termination within the "
                 "unwinding bound. Crafted size fields are exactly the rare inputs that sampling misses."),
-    level_note=("Only the named kernels: JUMBF BoxReader::read_header, BMFF BoxHeaderLite::read and read_ftyp_box, the PNG chunk scanner, "
-                "and (through C11/C35's harnesses) format sniffing. Most of the property -- nesting limits, decompression bombs, CBOR/COSE/"
+    level_note=("Only the named kernels: JUMBF BoxReader::read_header and format sniffing (Kani), BMFF BoxHeaderLite::read, read_ftyp_box and the "
+                "small BMFF seek/skip helpers (Engine Z over an in-memory stream model; the Kani harnesses for them time out), the PNG chunk "
+                "scanner (Kani, thorough). Most of the property -- nesting limits, decompression bombs, CBOR/COSE/"
                 "ASN.1/XML/ID3 parsing, allocation and time budgets, release-profile wrapping -- cannot be executed symbolically here and is "
                 "outside the claim. Trusted: Kani, CBMC, CaDiCaL."),
-    scope="BoxReader::read_header; bmff_io BoxHeaderLite::read, read_ftyp_box; png_io get_png_chunk_positions; over Cursor<&[u8]>",
+    scope="BoxReader::read_header; jumbf_io::container_from_stream; bmff_io BoxHeaderLite::read, read_ftyp_box, read_box_header_ext, meta_box_lacks_fullbox_header, _skip_bytes, skip_bytes_to; png_io get_png_chunk_positions; over Cursor<&[u8]>",
     outside=["every other parser of the SDK (CBOR, COSE, X.509/ASN.1, XML, ID3, TIFF IFDs, GIF blocks, RIFF, JPEG segments)",
              "recursion/nesting limits, decompression limits, allocation budgets, time budgets", "release-profile (wrapping) arithmetic",
              "inputs longer than 24/32 bytes"],
